@@ -217,17 +217,7 @@ func run(c *core.Ctx) error {
 	// ---- 1. the model decides: exhaustive TLC runs (in parallel with the graph dumps below)
 	var wg sync.WaitGroup
 	// (quick tier: the four exhaustively enumerated graph configs below are the model check;
-	//  thorough tier: two larger configs in addition)
-	if c.Thorough() {
-		for _, mcCfg := range []string{"KVStore_mc_quick.cfg", "KVStore_mc_thorough.cfg"} {
-			wg.Add(1)
-			go func(mcCfg string) {
-				defer wg.Done()
-				c.ModelCheck("KVStore", mcCfg, core.Workers(4), core.Timeout(25*time.Minute))
-			}(mcCfg)
-		}
-	}
-
+	//  thorough tier: two larger configs in addition, run while Engine A replays)
 	// ---- 2. Engine A on exhaustively enumerated state graphs
 	only := os.Getenv("VERIF_C15_ONLY") // developer switch: "A" or "B" runs one engine only
 	plans := []graphPlan{
@@ -245,7 +235,7 @@ func run(c *core.Ctx) error {
 		wg.Add(1)
 		go func(i int) {
 			defer wg.Done()
-			graphs[i], gerrs[i] = dumpGraph(c, plans[i].cfg, plans[i].workers, 10*time.Minute)
+			graphs[i], gerrs[i] = dumpGraph(c, plans[i].cfg, plans[i].workers, time.Duration(c.Pick(10, 25))*time.Minute)
 		}(i)
 	}
 	// ---- 3. Engine A on TLC -simulate behaviours (longer, bigger constants)
@@ -276,6 +266,17 @@ func run(c *core.Ctx) error {
 			return fmt.Errorf("state graph of %s: %v", plans[i].cfg, err)
 		}
 	}
+	var mcWG sync.WaitGroup
+	if c.Thorough() && only == "" {
+		for _, mcCfg := range []string{"KVStore_mc_quick.cfg", "KVStore_mc_thorough.cfg"} {
+			mcWG.Add(1)
+			go func(mcCfg string) {
+				defer mcWG.Done()
+				c.ModelCheck("KVStore", mcCfg, core.Workers(3), core.Timeout(25*time.Minute))
+			}(mcCfg)
+		}
+	}
+	defer mcWG.Wait()
 	if simErr != nil {
 		return fmt.Errorf("simulate: %v", simErr)
 	}
